@@ -15,7 +15,7 @@ PROPERTY = {
                'mutations': '10 in-place mutations of the evaluated config (set/append/delete/clear at several depths, incl. results of dynamic nodes)', 'evaluations': '1..3 re-evaluations of the retained source'},
     'outside': ['objects returned by user callables that are shared by the callable itself (not created per call)'],
     'per_split_timeout': {'quick': 600, 'thorough': 1800},
-    'wall_budget': {'quick': 900, 'thorough': 3400},
+    'wall_budget': {'quick': 1500, 'thorough': 7000},
 }
 
 DOC1 = '''a: 1
